@@ -22,6 +22,7 @@ import (
 	"strconv"
 	"strings"
 	"sync"
+	"sync/atomic"
 	"testing"
 	"time"
 
@@ -49,7 +50,8 @@ const (
 	vscBeaconID = "vsc-chain"
 	vscSelfAddr = "vsc-self:1"
 	vscPeriod   = 1 * time.Second // StartFollowChain waits one REAL period before a retry
-	vscAttempts = 3               // Sync attempts after which a scenario that keeps failing is ended
+	vscAttempts = 3               // failed Sync attempts after which a scenario without an honest peer ahead is ended
+	vscRetries  = 5               // failed attempts without a single stored beacon that make "no progress" an observation
 )
 
 type vscPeerType struct {
@@ -103,6 +105,18 @@ func (t *vscTrace) Emit(ev string, fields vlib.E) {
 	}
 	t.f.Write(append(b, '\n'))
 }
+
+// vscLogSink receives the process's log lines (it is the logger's output): every failed sync attempt of
+// StartFollowChain is announced there, also when the attempt never reached a peer.
+type vscLogSink struct{ failed atomic.Int64 }
+
+func (s *vscLogSink) Write(b []byte) (int, error) {
+	if bytes.Contains(b, []byte("Error while trying to follow chain")) {
+		s.failed.Add(1)
+	}
+	return len(b), nil
+}
+func (s *vscLogSink) Sync() error { return nil }
 
 // ---------------------------------------------------------------- fabricated chain
 
@@ -298,6 +312,8 @@ type vscHarness struct {
 	tasks    map[int64]int
 	strs     []*vscStream
 	timedOut bool
+	sink     *vscLogSink
+	failedAtPut atomic.Int64 // failed attempts announced when the last beacon was stored
 	nilBase  int // goroutines already stuck on a nil errChan when the scenario started
 }
 
@@ -498,6 +514,7 @@ func (h *vscHarness) resolveLocked(st *vscStream) {
 	}
 	full := h.withPrev(b)
 	same := st.pendRound <= vscChainLen && bytes.Equal(b.Signature, h.ch.beacons[st.pendRound].Signature)
+	h.failedAtPut.Store(h.sink.failed.Load())
 	h.tr.Emit("Put", vlib.E{"sid": st.sid, "round": st.pendRound, "verifies": h.ch.verifies(full), "same": same, "hb": st.pendHb,
 		"res": "ok", "sig": vscDigest(b.Signature), "observed": "read-back"})
 }
@@ -607,7 +624,7 @@ func (s *vscFollowStream) Send(p *drand.SyncProgress) error {
 // ---------------------------------------------------------------- scenario
 
 func (h *vscHarness) settle(ret chan error, returned *bool, rerr *string) bool {
-	deadline := time.Now().Add(8 * time.Second)
+	deadline := time.Now().Add(45 * time.Second) // generous: a retry costs one real period
 	okRuns := 0
 	for time.Now().Before(deadline) {
 		if !*returned {
@@ -640,10 +657,16 @@ func (h *vscHarness) settle(ret chan error, returned *bool, rerr *string) bool {
 			// quiescent: StartFollowChain returned, or its Sync is parked on a silent stream (Run + tryNode),
 			// or Sync returned and its result is stuck on a nil errChan (code before fix F3), or the
 			// follower is between two attempts after vscAttempts failed ones (only Run is left)
+			// (vscRetries failed attempts in a row without a stored beacon when an honest peer is ahead)
 			h.mu.Lock()
 			attempts := len(h.tasks)
 			h.mu.Unlock()
-			q = busy == 0 && (*returned || total >= 2 || nilSend > h.nilBase || (attempts >= vscAttempts && total == 1))
+			need := int64(vscRetries)
+			if !h.honestAhead() {
+				need = vscAttempts
+			}
+			enough := h.sinceProgress() >= need || (!h.honestAhead() && attempts >= vscAttempts)
+			q = busy == 0 && (*returned || total >= 2 || nilSend > h.nilBase || (enough && total == 1))
 		}
 		if q {
 			okRuns++
@@ -661,6 +684,26 @@ func (h *vscHarness) settle(ret chan error, returned *bool, rerr *string) bool {
 	}
 	h.timedOut = true
 	h.tr.Emit("Timeout", vlib.E{"what": "settle", "dump": dump})
+	return false
+}
+
+func (h *vscHarness) sinceProgress() int64 { return h.sink.failed.Load() - h.failedAtPut.Load() }
+
+// an honest (possibly after a first transient failure) peer whose head reaches the goal of the request
+func (h *vscHarness) honestAhead() bool {
+	goal := h.sc.Target
+	if goal == 0 {
+		for _, p := range h.sc.Peers {
+			if p.Later == "Honest" && p.Head > goal {
+				goal = p.Head
+			}
+		}
+	}
+	for _, p := range h.sc.Peers {
+		if p.Later == "Honest" && goal > 0 && p.Head >= goal {
+			return true
+		}
+	}
 	return false
 }
 
@@ -694,7 +737,8 @@ func vscRunFollow(t *testing.T, tr *vscTrace, sc vscScenario, seed int64) {
 	}
 	h := &vscHarness{t: t, tr: tr, sc: sc, ch: ch, calls: map[int]int{}, byGo: map[int64]int{}, tasks: map[int64]int{}}
 	rand.Seed(seed) //nolint
-	lg := dlog.New(nil, dlog.FatalLevel, false)
+	h.sink = &vscLogSink{}
+	lg := dlog.New(h.sink, dlog.ErrorLevel, true)
 	peers := [][]any{}
 	for _, p := range sc.Peers {
 		peers = append(peers, []any{p.First, p.Later, p.K, p.Head})
@@ -857,12 +901,15 @@ func vscRunFollow(t *testing.T, tr *vscTrace, sc vscScenario, seed int64) {
 	switch {
 	case !followReturned && nilSend:
 		retClass = "sync-returned-errchan-nil"
+	case !followReturned && len(blocked) == 0 && h.sinceProgress() >= vscRetries:
+		retClass = "retries-without-progress"
 	case !followReturned && len(blocked) == 0:
 		retClass = "still-failing-after-retries"
 	}
 	tr.Emit("End", vlib.E{"head": head, "rounds": rounds, "ticks": 6, "returned": followReturned || len(blocked) == 0, "ret": retClass,
 		"quiescent": ok && !h.timedOut, "blocked": blocked, "liveness": !h.timedOut && !sc.BadHash, "opens": before, "opens_after": opens(),
-		"follow_returned": followReturned, "attempts": attempts})
+		"follow_returned": followReturned, "attempts": attempts, "failed_attempts": h.sink.failed.Load(),
+		"attempts_since_progress": h.sinceProgress(), "honest_ahead": h.honestAhead()})
 	sched.Uninstall()
 	vlib.Eventually(5*time.Second, func() bool { n, _, _, _ := vscSyncGoroutines(); return n == 0 })
 	vlib.Eventually(2*time.Second, func() bool {
